@@ -50,13 +50,36 @@ def run_api(chk, prop, variants, san="asan", nshards=16, extra_args=None, stall_
                 chk.inconclusive.append(dict(variant=vtag, case=c.get("idx"), desc=_j(c.get("desc")),
                                              how="%s (%s) while running the case: belongs to C11/C04, not decided by this property" % (c["kind"], c["key"])))
                 continue
+            if c.get("kind") == "batch-only":
+                chk.inconclusive.append(dict(variant=vtag, case=c.get("idx"), desc=_j(c.get("desc")),
+                                             how="crash only while cases ran back to back in one process (%s); alone in a fresh process the case is fine: history dependence belongs to C15" % c["key"]))
+                continue
             chk.add_violation("%s|%s|%s" % (prop, c["kind"], c["key"]),
                               "%s while running a case (%s)" % (c["kind"], c["key"]), variant=vtag, case=c.get("idx"),
                               case_desc=_j(c.get("desc")), stderr=c.get("alone_stderr") or c.get("batch_stderr"),
                               batch_how=c.get("batch_how"), alone_status=c.get("alone_status"))
+        # soundness rule 5: a violation seen while cases run back to back in one process must reproduce ALONE in a
+        # fresh process; if it does not, it is history dependence (C15's business), not this property's
+        by_key = {}
         for v in sr.violations:
-            chk.add_violation(v.get("key", "?"), v.get("what", ""), variant=vtag, case=v.get("case"),
-                              case_desc=v.get("case_desc"), detail=v.get("detail"))
+            by_key.setdefault(v.get("key", "?"), []).append(v)
+        for key, vs in by_key.items():
+            confirmed = prop == "C15"
+            tried = 0
+            for v in vs[:3]:
+                if confirmed or v.get("case") is None or v.get("case", -1) < 0:
+                    confirmed = True
+                    break
+                tried += 1
+                alone = sr.run_alone(v["case"])
+                if alone["status"] != "exit" or alone["rc"] != 0 or any(a.get("key") == key for a in alone["viols"]):
+                    confirmed = True
+                    break
+            if confirmed:
+                for v in vs:
+                    chk.add_violation(key, v.get("what", ""), variant=vtag, case=v.get("case"), case_desc=v.get("case_desc"), detail=v.get("detail"))
+            else:
+                chk.inconclusive.append(dict(variant=vtag, key=key, count=len(vs), how="seen only while cases ran back to back in one process; %d witnesses re-run alone did not reproduce: history dependence belongs to C15" % tried))
         for inc in sr.inconclusive:
             chk.inconclusive.append(dict(variant=vtag, case=inc.get("idx"), desc=_j(inc.get("desc")), how=inc.get("batch_how")))
         if len(sr.summaries) < nshards and not sr.crashes and not sr.violations:
